@@ -167,6 +167,10 @@ def _check(prop, tier, replay, C):
         if rc != 0:
             tail = "\n".join(l for l in out.splitlines() if '"level"' not in l)[-3000:]
             broken.append(("tie", f"harness {name} exited rc={rc}", tail))
+        if not os.path.exists(sp):
+            # the test ran (rc=0) but wrote no summary: wrong -run pattern, a skipped test
+            broken.append(("tie", f"harness {name} wrote no summary (rc={rc})", out[-2000:]))
+            continue
         sm = json.load(open(sp))
         summaries.append(sm)
         total_ops += sm["ops"]
